@@ -85,6 +85,16 @@ def build_ncch(spec):
             plain[name] = pad_mu(spec[name])
     if spec.get('exefs_files') is not None:
         img, exefs_info = build_exefs(spec['exefs_files'], spec.get('exefs_slots'))
+        if spec.get('exefs_overlap'):
+            # entry b is made to begin 0x200 bytes into entry a (two entries sharing bytes: unusual, but nothing in the format forbids it);
+            # which bytes get the secondary key is decided from the entries as they are now (the union of their ranges)
+            a, b = spec['exefs_overlap']
+            new_off = exefs_info[a]['offset'] + 0x200
+            slot = exefs_info[b]['slot']
+            img = bytearray(img)
+            img[16 * slot + 8:16 * slot + 12] = new_off.to_bytes(4, 'little')
+            img = bytes(img)
+            exefs_info[b] = dict(exefs_info[b], offset=new_off)
         plain['exefs'] = pad_mu(img)
     if spec.get('romfs') is not None:
         plain['romfs'] = pad_mu(spec['romfs'])
